@@ -100,6 +100,10 @@ def unmarked_info(proj, src, filename):
                     except Exception:
                         return 'attribute', None
                     names = v.attr_list(ctx) if v else {}
+                    # a live runtime object whose class hooks attribute access (unittest.mock): looking at it changes it
+                    live = getattr(v, 'value', None)
+                    if live is not None and not isinstance(live, type) and hasattr(type(live), '__getattr__'):
+                        return 'attribute:live-object-with-dynamic-attributes', sorted(names)
                     return 'attribute', sorted(names)
                 out[pos] = thunk
     return out, s.tree
@@ -196,6 +200,7 @@ def w_files(job):
         info, _ = unmarked_info(proj, src, path)
         lines = src.splitlines()
         first = {}
+        asked = []
         for pos, pclass in positions_of(src, tree, rnd, n):
             line = lines[pos[0] - 1] if pos[0] <= len(lines) else ''
             if not line.isascii():
@@ -208,11 +213,42 @@ def w_files(job):
             sh.count('prev:' + _cls(prev))
             bad = check_position(proj, src, pos, path, info, sh)
             if bad and bad[0] not in first:
-                first[bad[0]] = (pos, bad[1])
-        for sig, (pos, detail) in first.items():
+                first[bad[0]] = (pos, bad[1], list(asked))
+            asked.append(pos)
+        for sig, (pos, detail, before) in first.items():
             small = _minimise(src, pos, path, sig)
+            if not _reproduces(small['src'], tuple(small['pos']), path, sig, []):
+                # the failure needs the requests made before it on the same project: keep the file, shrink the history
+                small = {'src': src, 'pos': list(pos), 'filename': path, 'history': [list(h) for h in _minimise_history(src, pos, path, sig, before)]}
             sh.violation(sig, small, detail)
     return sh.result()
+
+
+def _reproduces(src, pos, filename, sig, history):
+    proj = suppview.project()
+    info, _ = unmarked_info(proj, src, filename)
+    sh = Shard()
+    for h in history:
+        check_position(proj, src, tuple(h), filename, info, sh)
+    b = check_position(proj, src, pos, filename, info, sh)
+    return bool(b) and b[0] == sig
+
+
+def _minimise_history(src, pos, filename, sig, history):
+    h = list(history)
+    if not _reproduces(src, pos, filename, sig, h):
+        return h
+    for _ in range(40):
+        if len(h) <= 1:
+            break
+        a, b = h[:len(h) // 2], h[len(h) // 2:]
+        if _reproduces(src, pos, filename, sig, b):
+            h = b
+        elif _reproduces(src, pos, filename, sig, a):
+            h = a
+        else:
+            break
+    return h
 
 
 def _minimise(src, pos, filename, sig):
@@ -309,11 +345,16 @@ def run(run):
 def replay(case):
     fn = case.get('filename') or suppview.filename_for(False)
     proj = suppview.project()
-    info, _ = unmarked_info(proj, case['src'], fn)
-    bad = check_position(proj, case['src'], tuple(case['pos']), fn, info, Shard())
+    src = case['src'] if case.get('src') is not None else corpus.read(fn)
+    info, _ = unmarked_info(proj, src, fn)
+    for h in case.get('history', ()):
+        check_position(proj, src, tuple(h), fn, info, Shard())
+    bad = check_position(proj, src, tuple(case['pos']), fn, info, Shard())
     if bad:
         return [{'signature': bad[0], 'case': case, 'detail': bad[1]}]
     return []
 
 
-KNOWN = {}
+KNOWN_SIGS = {'C12-live-object-with-dynamic-attributes': lambda sig: sig == 'transparency:attribute:live-object-with-dynamic-attributes'}
+_listed = {e['id'] for e in core.load_known(PROPERTY) if e.get('status') == 'finding'}
+KNOWN = {fid: (lambda v, p=pred: p(v['signature'])) for fid, pred in KNOWN_SIGS.items() if fid in _listed}
